@@ -127,6 +127,11 @@ def scan(repo):
                         for a in n.args:
                             if m.setlike(a, local_sets):
                                 set_sites.append("%s:%s|call:%s:ORDER-EXPOSED|%s" % (m.name, qual, fname, seg(m.src, a)))
+                    if fname in ("sorted", "min", "max") and any(k.arg == "key" for k in n.keywords):
+                        # a sort key can tie: the order of tied elements is the set's iteration order
+                        for a in n.args:
+                            if m.setlike(a, local_sets):
+                                set_sites.append("%s:%s|call:%s-with-key:ORDER-EXPOSED|%s" % (m.name, qual, fname, seg(m.src, a)))
                     if isinstance(f, ast.Attribute) and f.attr == "pop" and not n.args and m.setlike(f.value, local_sets):
                         set_sites.append("%s:%s|call:pop:ORDER-EXPOSED|%s" % (m.name, qual, seg(m.src, f.value)))
                     if isinstance(f, ast.Name) and f.id in ("id", "hash"):
